@@ -16,7 +16,10 @@ Theorem C10_extracted_structure :
   Extracted.consumers_touch_dispatcher_chans = 0 /\
   Extracted.dispatcher_foreign_sends = 0 /\
   Extracted.authenticate_other_sends = 0 /\
-  Extracted.dispatcher_arms = 10.
+  Extracted.dispatcher_arms = 10 /\
+  (* the client side: every request method waits, unconditionally, on a fresh channel of its own *)
+  Extracted.clients_rendezvous_plain = true /\
+  Extracted.api_request_methods = 9.
 Proof. exact extracted_structure. Qed.
 
 Theorem C10_holds_for_extracted_cfg : forall m,
